@@ -1,6 +1,1145 @@
-//! C04 — stub (to be implemented).
+//! C04 — indexed region queries return exactly what a linear scan would (BAI, CSI, tabix).
+//!
+//! Monitor: coordinate-sorted record sets (see `layouts.rs`) are written with the real writers over a BGZF writer
+//! with forced small / straddled blocks; indexes come from `bam::fs::index` (BAI), `bcf::fs::index` (CSI),
+//! `vcf::fs::index` (tabix) and from the public `csi::binning_index::Indexer<BinnedIndex>` driven the way
+//! `fs::index` drives it (BAM+CSI, and CSI with non-default min_shift/depth); each index is used in memory and
+//! after `*::fs::write` + `*::fs::read`. Every region query result is compared, as an ordered list of unique
+//! record names / IDs, with the scan filter over the generator's own description of the records
+//! (same reference AND span ∩ region ≠ ∅, span from POS/CIGAR resp. REF/END/SVLEN, computed here).
+//! A missing record is diagnosed: not indexed / not in any returned bin / pruned by the linear or binned
+//! min_offset / lost in the chunk merge / inside a returned chunk but skipped by the reader / rejected by the
+//! format-level intersects filter — the class is part of the signature.
+
+mod layouts;
+mod genfiles;
+
+use std::{
+    collections::{HashMap, HashSet},
+    io::{self, Cursor},
+    path::Path,
+};
+
+use noodles_bam as bam;
+use noodles_bcf as bcf;
+use noodles_bgzf as bgzf;
+use noodles_core::{Position, Region, region::Interval};
+use noodles_csi::{
+    self as csi, BinningIndex,
+    binning_index::{
+        Index, Indexer,
+        index::reference_sequence::{self, bin::Chunk, index::{BinnedIndex, LinearIndex}},
+    },
+};
+use noodles_sam::{self as sam, alignment::Record as _};
+use noodles_tabix as tabix;
+use noodles_vcf::{self as vcf, variant::Record as _};
+use serde_json::{Value, json};
+use vcore::{CaseOut, Ctx, Report, Rng, guard, rng::fnv1a, run_cases};
+
+use genfiles::{AlnRec, AlnSet, VarRec, VarSet};
+
+// ---------------------------------------------------------------------------------------------------
+// description of a written record, as the oracle sees it
+
+#[derive(Clone, Debug)]
+struct Item {
+    name: String,
+    /// reference index in the file header (None = unplaced)
+    rid: Option<usize>,
+    /// (start, smallest end, largest end) — the two ends differ only for VCF 4.5 SVLEN records
+    span: Option<(usize, usize, usize)>,
+    unmapped: bool,
+}
+
+#[derive(Clone, Debug)]
+struct Reg {
+    rid: usize,
+    s: Option<usize>,
+    e: Option<usize>,
+    class: &'static str,
+}
+
+impl Reg {
+    fn interval(&self) -> Interval {
+        match (self.s.and_then(Position::new), self.e.and_then(Position::new)) {
+            (Some(s), Some(e)) => (s..=e).into(),
+            (Some(s), None) => (s..).into(),
+            (None, Some(e)) => (..=e).into(),
+            (None, None) => (..).into(),
+        }
+    }
+    fn hits(&self, s: usize, e: usize) -> bool {
+        self.s.unwrap_or(1) <= e && s <= self.e.unwrap_or(usize::MAX)
+    }
+}
+
+/// Result of the sequential scan of the written file with the noodles reader: names in file order and the
+/// `[vpos before, vpos after)` pair of each record (what the indexers store as the record's chunk).
+struct Scan {
+    names: Vec<String>,
+    chunks: Vec<(u64, u64)>,
+}
+
+trait Backend {
+    const FMT: &'static str;
+    fn query<X: BinningIndex>(&self, ix: &X, name: &str, iv: Interval) -> io::Result<Vec<String>>;
+    /// all records inside the given chunks, without the format-level filter
+    fn raw(&self, chunks: Vec<Chunk>) -> io::Result<Vec<String>>;
+    fn unmapped<X: BinningIndex>(&self, _ix: &X) -> Option<io::Result<Vec<String>>> {
+        None
+    }
+}
+
+// ---------------------------------------------------------------------------------------------------
+// BAM
+
+struct BamB {
+    data: Vec<u8>,
+    header: sam::Header,
+}
+
+fn bam_name(r: &bam::Record) -> String {
+    r.name().map(|n| String::from_utf8_lossy(n.as_ref()).into_owned()).unwrap_or_default()
+}
+
+impl BamB {
+    fn open(path: &Path) -> io::Result<(Self, Scan)> {
+        let data = std::fs::read(path)?;
+        let mut r = bam::io::Reader::new(&data[..]);
+        let header = r.read_header()?;
+        let mut rec = bam::Record::default();
+        let mut scan = Scan { names: vec![], chunks: vec![] };
+        loop {
+            let s = u64::from(r.get_ref().virtual_position());
+            if r.read_record(&mut rec)? == 0 {
+                break;
+            }
+            let e = u64::from(r.get_ref().virtual_position());
+            scan.names.push(bam_name(&rec));
+            scan.chunks.push((s, e));
+        }
+        Ok((BamB { data, header }, scan))
+    }
+
+    /// CSI over the BAM, built the way `bam::fs::index` builds the BAI but with `Indexer::<BinnedIndex>::new`.
+    fn csi(&self, min_shift: u8, depth: u8) -> io::Result<csi::Index> {
+        let mut r = bam::io::Reader::new(&self.data[..]);
+        let header = r.read_header()?;
+        let mut ixr = Indexer::<BinnedIndex>::new(min_shift, depth);
+        let mut rec = bam::Record::default();
+        let mut start = r.get_ref().virtual_position();
+        while r.read_record(&mut rec)? != 0 {
+            let end = r.get_ref().virtual_position();
+            let ctx = match (rec.reference_sequence_id().transpose()?, rec.alignment_start().transpose()?, rec.alignment_end().transpose()?) {
+                (Some(id), Some(s), Some(e)) => Some((id, s, e, !rec.flags().is_unmapped())),
+                _ => None,
+            };
+            ixr.add_record(ctx, Chunk::new(start, end))?;
+            start = end;
+        }
+        Ok(ixr.build(header.reference_sequences().len()))
+    }
+}
+
+impl Backend for BamB {
+    const FMT: &'static str = "bam";
+    fn query<X: BinningIndex>(&self, ix: &X, name: &str, iv: Interval) -> io::Result<Vec<String>> {
+        let mut r = bam::io::Reader::new(Cursor::new(&self.data[..]));
+        let region = Region::new(name, iv);
+        let q = r.query(&self.header, ix, &region)?;
+        q.records().map(|x| x.map(|rec| bam_name(&rec))).collect()
+    }
+    fn raw(&self, chunks: Vec<Chunk>) -> io::Result<Vec<String>> {
+        let mut bg = bgzf::io::Reader::new(Cursor::new(&self.data[..]));
+        let mut r = bam::io::Reader::from(csi::io::Query::new(&mut bg, chunks));
+        let mut rec = bam::Record::default();
+        let mut out = vec![];
+        while r.read_record(&mut rec)? != 0 {
+            out.push(bam_name(&rec));
+        }
+        Ok(out)
+    }
+    fn unmapped<X: BinningIndex>(&self, ix: &X) -> Option<io::Result<Vec<String>>> {
+        let mut r = bam::io::Reader::new(Cursor::new(&self.data[..]));
+        Some((|| {
+            // both usages: a reader that has consumed the header, and a fresh one
+            if self.data.len() % 2 == 0 {
+                r.read_header()?;
+            }
+            let it = r.query_unmapped(ix)?;
+            it.map(|x| x.map(|rec| bam_name(&rec))).collect()
+        })())
+    }
+}
+
+// ---------------------------------------------------------------------------------------------------
+// BCF
+
+struct BcfB {
+    data: Vec<u8>,
+    header: vcf::Header,
+}
+
+fn bcf_id(r: &bcf::Record) -> String {
+    String::from_utf8_lossy(r.ids().as_ref()).into_owned()
+}
+
+impl BcfB {
+    fn open(path: &Path) -> io::Result<(Self, Scan)> {
+        let data = std::fs::read(path)?;
+        let mut r = bcf::io::Reader::new(&data[..]);
+        let header = r.read_header()?;
+        let mut rec = bcf::Record::default();
+        let mut scan = Scan { names: vec![], chunks: vec![] };
+        loop {
+            let s = u64::from(r.get_ref().virtual_position());
+            if r.read_record(&mut rec)? == 0 {
+                break;
+            }
+            let e = u64::from(r.get_ref().virtual_position());
+            scan.names.push(bcf_id(&rec));
+            scan.chunks.push((s, e));
+        }
+        Ok((BcfB { data, header }, scan))
+    }
+
+    fn csi(&self, min_shift: u8, depth: u8) -> io::Result<csi::Index> {
+        let mut r = bcf::io::Reader::new(&self.data[..]);
+        let header = r.read_header()?;
+        let mut ixr = Indexer::<BinnedIndex>::new(min_shift, depth);
+        let mut rec = bcf::Record::default();
+        let mut start = r.get_ref().virtual_position();
+        while r.read_record(&mut rec)? != 0 {
+            let end = r.get_ref().virtual_position();
+            let id = rec.reference_sequence_id()?;
+            let s = rec.variant_start().transpose()?.ok_or_else(|| io::Error::new(io::ErrorKind::InvalidData, "missing start"))?;
+            let e = rec.variant_end(&header)?;
+            ixr.add_record(Some((id, s, e, true)), Chunk::new(start, end))?;
+            start = end;
+        }
+        Ok(ixr.build(header.contigs().len()))
+    }
+}
+
+impl Backend for BcfB {
+    const FMT: &'static str = "bcf";
+    fn query<X: BinningIndex>(&self, ix: &X, name: &str, iv: Interval) -> io::Result<Vec<String>> {
+        let mut r = bcf::io::Reader::new(Cursor::new(&self.data[..]));
+        let region = Region::new(name, iv);
+        let q = r.query(&self.header, ix, &region)?;
+        q.records().map(|x| x.map(|rec| bcf_id(&rec))).collect()
+    }
+    fn raw(&self, chunks: Vec<Chunk>) -> io::Result<Vec<String>> {
+        let mut bg = bgzf::io::Reader::new(Cursor::new(&self.data[..]));
+        let mut r = bcf::io::Reader::from(csi::io::Query::new(&mut bg, chunks));
+        let mut rec = bcf::Record::default();
+        let mut out = vec![];
+        while r.read_record(&mut rec)? != 0 {
+            out.push(bcf_id(&rec));
+        }
+        Ok(out)
+    }
+}
+
+// ---------------------------------------------------------------------------------------------------
+// bgzipped VCF
+
+struct VcfB {
+    data: Vec<u8>,
+    header: vcf::Header,
+}
+
+impl VcfB {
+    fn open(path: &Path) -> io::Result<(Self, Scan)> {
+        let data = std::fs::read(path)?;
+        let mut r = vcf::io::Reader::new(bgzf::io::Reader::new(&data[..]));
+        let header = r.read_header()?;
+        let mut rec = vcf::Record::default();
+        let mut scan = Scan { names: vec![], chunks: vec![] };
+        loop {
+            let s = u64::from(r.get_ref().virtual_position());
+            if r.read_record(&mut rec)? == 0 {
+                break;
+            }
+            let e = u64::from(r.get_ref().virtual_position());
+            scan.names.push(rec.ids().as_ref().to_string());
+            scan.chunks.push((s, e));
+        }
+        Ok((VcfB { data, header }, scan))
+    }
+}
+
+impl Backend for VcfB {
+    const FMT: &'static str = "vcf.gz";
+    fn query<X: BinningIndex>(&self, ix: &X, name: &str, iv: Interval) -> io::Result<Vec<String>> {
+        let mut r = vcf::io::Reader::new(bgzf::io::Reader::new(Cursor::new(&self.data[..])));
+        let region = Region::new(name, iv);
+        let q = r.query(&self.header, ix, &region)?;
+        q.records().map(|x| x.map(|rec| rec.ids().as_ref().to_string())).collect()
+    }
+    fn raw(&self, chunks: Vec<Chunk>) -> io::Result<Vec<String>> {
+        let mut bg = bgzf::io::Reader::new(Cursor::new(&self.data[..]));
+        let mut r = vcf::io::Reader::new(csi::io::Query::new(&mut bg, chunks));
+        let mut rec = vcf::Record::default();
+        let mut out = vec![];
+        while r.read_record(&mut rec)? != 0 {
+            out.push(rec.ids().as_ref().to_string());
+        }
+        Ok(out)
+    }
+}
+
+// ---------------------------------------------------------------------------------------------------
+// regions
+
+/// 0-based half-open interval of a bin id (CSIv1 numbering); used for diagnosis and region classes only.
+fn bin_interval(id: usize, min_shift: u8, depth: u8) -> Option<(u8, usize, usize)> {
+    let mut l = 0u8;
+    loop {
+        let first = ((1usize << (3 * l as usize)) - 1) / 7;
+        let next = ((1usize << (3 * (l as usize + 1))) - 1) / 7;
+        if id < next {
+            let span = 1usize << (min_shift as usize + 3 * (depth - l) as usize);
+            let o = id - first;
+            return Some((l, o * span, (o + 1) * span));
+        }
+        l += 1;
+        if l > depth {
+            return None;
+        }
+    }
+}
+
+fn gen_regions(rng: &mut Rng, items: &[Item], nrefs: usize, coord_max: usize, want: usize) -> Vec<Reg> {
+    let mut v: Vec<Reg> = Vec::new();
+    let placed: Vec<&Item> = items.iter().filter(|i| i.span.is_some() && i.rid.is_some()).collect();
+    let cm = coord_max;
+    let push = |v: &mut Vec<Reg>, rid: usize, s: Option<usize>, e: Option<usize>, class: &'static str| {
+        let s = s.map(|x| x.clamp(1, cm));
+        let e = e.map(|x| x.clamp(1, cm));
+        if let (Some(a), Some(b)) = (s, e) {
+            if a > b {
+                return;
+            }
+        }
+        v.push(Reg { rid, s, e, class });
+    };
+    for r in 0..nrefs {
+        let has = placed.iter().any(|i| i.rid == Some(r));
+        push(&mut v, r, None, None, if has { "whole-reference" } else { "empty-reference" });
+        if !has {
+            push(&mut v, r, Some(1), Some(1000.min(cm)), "empty-reference");
+            push(&mut v, r, Some(1 + rng.below(cm as u64) as usize), None, "empty-reference");
+        }
+    }
+    if !placed.is_empty() {
+        let per = (want / 8).max(4);
+        for _ in 0..per {
+            let it = placed[rng.usize_below(placed.len())];
+            let r = it.rid.unwrap();
+            let (s, e, e2) = it.span.unwrap();
+            push(&mut v, r, Some(s), Some(e), "own-span");
+            if s > 1 {
+                push(&mut v, r, Some(s - 1), Some(s - 1), "just-before");
+            }
+            push(&mut v, r, Some(e2 + 1), Some(e2 + 1), "just-after");
+            push(&mut v, r, Some(s), Some(s), "point-start");
+            push(&mut v, r, Some(e), Some(e), "point-end");
+            if rng.bool() {
+                push(&mut v, r, Some(s.saturating_sub(1).max(1)), Some(e2 + 1), "own-span+-1");
+            }
+            if rng.bool() {
+                let m = s + (e - s) / 2;
+                push(&mut v, r, Some(m), Some(m), "point-inside");
+            }
+            match rng.below(3) {
+                0 => push(&mut v, r, Some(s), None, "unbounded-end"),
+                1 => push(&mut v, r, None, Some(e), "unbounded-start"),
+                _ => {}
+            }
+            // bin-aligned window of a random level containing the start, and its right neighbour
+            let j = rng.usize_below(layouts::LEVEL_SPANS.len());
+            let span = layouts::LEVEL_SPANS[j];
+            if span < cm {
+                let k = (s - 1) / span;
+                push(&mut v, r, Some(k * span + 1), Some((k + 1) * span), "bin-window");
+                if rng.bool() {
+                    push(&mut v, r, Some((k + 1) * span + 1), Some((k + 2) * span), "bin-window-right");
+                }
+                if rng.bool() && k > 0 {
+                    push(&mut v, r, Some((k - 1) * span + 1), Some(k * span), "bin-window-left");
+                }
+                if rng.chance(1, 3) {
+                    // window edges +-1
+                    push(&mut v, r, Some((k * span).max(1)), Some(k * span + 1), "bin-edge");
+                }
+            }
+        }
+        // random regions and regions that hit nothing
+        for _ in 0..(want / 6).max(3) {
+            let it = placed[rng.usize_below(placed.len())];
+            let r = it.rid.unwrap();
+            let a = 1 + rng.below(cm as u64) as usize;
+            let b = (a + rng.skewed(1 << 22) as usize).min(cm);
+            push(&mut v, r, Some(a), Some(b), "random");
+            let (s, _, _) = it.span.unwrap();
+            let near = s.saturating_sub(rng.skewed(40_000) as usize).max(1);
+            push(&mut v, r, Some(near), Some((near + rng.skewed(70_000) as usize).min(cm)), "random-near");
+        }
+        for r in 0..nrefs {
+            let last_end = placed.iter().filter(|i| i.rid == Some(r)).map(|i| i.span.unwrap().2).max();
+            let first_start = placed.iter().filter(|i| i.rid == Some(r)).map(|i| i.span.unwrap().0).min();
+            if let Some(le) = last_end {
+                if le + 2 <= cm {
+                    push(&mut v, r, Some(le + 2), None, "beyond-last");
+                }
+            }
+            if let Some(fs) = first_start {
+                if fs > 2 {
+                    push(&mut v, r, None, Some(fs - 1), "before-first");
+                }
+            }
+        }
+    }
+    if v.len() > 300 {
+        // keep the per-reference regions at the front, sample the rest
+        let head = nrefs.min(v.len());
+        let mut tail: Vec<Reg> = v.split_off(head);
+        rng.shuffle(&mut tail);
+        tail.truncate(300 - head);
+        v.extend(tail);
+    }
+    v
+}
+
+// ---------------------------------------------------------------------------------------------------
+// the check
+
+trait OffKind {
+    const NAME: &'static str;
+    /// binned offsets only: the bin the ancestor walk from the leaf bin of `start` stops at, its loffset, and the
+    /// existing contiguous ancestors of that bin with their loffsets (CSIv1 numbering, my own arithmetic)
+    fn walk(&self, _min_shift: u8, _depth: u8, _start: usize) -> Option<(usize, u64, Vec<usize>)> {
+        None
+    }
+}
+impl OffKind for LinearIndex {
+    const NAME: &'static str = "linear";
+}
+impl OffKind for BinnedIndex {
+    const NAME: &'static str = "binned";
+    fn walk(&self, min_shift: u8, depth: u8, start: usize) -> Option<(usize, u64, Vec<usize>)> {
+        let first_leaf = ((1usize << (3 * depth as usize)) - 1) / 7;
+        let mut id = first_leaf + ((start - 1) >> min_shift);
+        loop {
+            if let Some(v) = self.get(&id) {
+                let mut chain = vec![];
+                let mut cur = id;
+                while cur > 0 {
+                    let p = (cur - 1) / 8;
+                    if self.contains_key(&p) {
+                        chain.push(p);
+                        cur = p;
+                    } else {
+                        break;
+                    }
+                }
+                return Some((id, u64::from(*v), chain));
+            }
+            if id == 0 {
+                return None;
+            }
+            id = (id - 1) / 8;
+        }
+    }
+}
+
+struct Labels<'a> {
+    /// "bai" | "csi" | "tabix"
+    ix: &'a str,
+    /// "memory" | "file"
+    via: &'a str,
+    geometry: (u8, u8),
+    /// reference names as the *file header* orders them
+    ref_names: &'a [String],
+    /// index reference id for a header reference index (tabix: position among the names of the index header)
+    index_rid: &'a dyn Fn(usize) -> Option<usize>,
+}
+
+#[derive(Default)]
+struct Stats {
+    regions: u64,
+    nonempty: u64,
+    pruning: u64,
+    refused_empty: u64,
+    ambiguous: u64,
+    max_answer: u64,
+}
+
+fn chunk_holds(c: &Chunk, vs: u64, ve: u64) -> bool {
+    u64::from(c.start()) <= vs && ve <= u64::from(c.end())
+}
+
+/// Which stage lost record `m` (index in file order) for region `reg`.
+fn diagnose<B: Backend, I>(b: &B, scan: &Scan, ix: &Index<I>, irid: usize, reg: &Reg, lab: &Labels, m: usize) -> (String, String)
+where
+    I: reference_sequence::Index + OffKind,
+{
+    let (ms, d) = lab.geometry;
+    let (vs, ve) = scan.chunks[m];
+    let rs = &ix.reference_sequences()[irid];
+    let holder = rs.bins().iter().find(|(_, bin)| bin.chunks().iter().any(|c| chunk_holds(c, vs, ve))).map(|(id, _)| *id);
+    let Some(holder) = holder else {
+        return ("not-indexed".into(), format!("no bin of reference {irid} holds a chunk covering the record's chunk {vs}..{ve}"));
+    };
+    let iv = reg.interval();
+    let qbins = match rs.query(ms, d, iv) {
+        Ok(v) => v,
+        Err(e) => return ("bin-query-failed".into(), e.to_string()),
+    };
+    let in_returned = qbins.iter().any(|bin| bin.chunks().iter().any(|c| chunk_holds(c, vs, ve)));
+    let hb = bin_interval(holder, ms, d);
+    if !in_returned {
+        return (
+            "not-in-any-returned-bin".into(),
+            format!("the record's chunk {vs}..{ve} is in bin {holder} {hb:?}, which ReferenceSequence::query({iv}) does not return ({} bins returned)", qbins.len()),
+        );
+    }
+    let chunks = match ix.query(irid, iv) {
+        Ok(c) => c,
+        Err(e) => return ("index-query-failed".into(), e.to_string()),
+    };
+    let covered = chunks.iter().any(|c| chunk_holds(c, vs, ve));
+    let start = Position::new(reg.s.unwrap_or(1)).unwrap();
+    let mo = u64::from(rs.min_offset(ms, d, start));
+    if !covered {
+        if ve <= mo {
+            let rel = if I::NAME == "binned" {
+                match hb {
+                    Some((lvl, b0, b1)) if b0 <= reg.s.unwrap_or(1) - 1 && reg.s.unwrap_or(1) - 1 < b1 => {
+                        if lvl == d { ":in-leaf-bin-of-region-start" } else { ":in-ancestor-bin" }
+                    }
+                    _ => ":in-later-bin",
+                }
+            } else {
+                ""
+            };
+            // Does the lower bound follow the (known, unsound) meaning "first record of the bin the ancestor walk stops
+            // at" (in memory) resp. "minimum of that over the bin's contiguous existing ancestors" (after a file round
+            // trip)? Anything else is a different defect and gets its own class.
+            let rel = match rs.index().walk(ms, d, reg.s.unwrap_or(1)) {
+                None => rel.to_string(),
+                Some((sb, v, chain)) => {
+                    let first_of = |bin: usize| -> Option<u64> {
+                        let cs = rs.bins().get(&bin)?.chunks();
+                        scan.chunks.iter().filter(|&&(a, z)| cs.iter().any(|c| chunk_holds(c, a, z))).map(|c| c.0).min()
+                    };
+                    let own = first_of(sb);
+                    let chain_min = chain.iter().filter_map(|&p| first_of(p)).chain(own).min();
+                    if v != mo {
+                        format!("{rel}:min-offset-is-not-the-loffset-of-the-first-existing-ancestor")
+                    } else if Some(v) == own || Some(v) == chain_min {
+                        rel.to_string()
+                    } else {
+                        format!("{rel}:loffset-of-bin-is-not-its-first-record")
+                    }
+                }
+            };
+            return (
+                format!("pruned-by-{}-min-offset{rel}", I::NAME),
+                format!("the record's chunk {vs}..{ve} is in returned bin {holder} {hb:?} but ends at or before min_offset({}) = {mo}, so optimize_chunks dropped it", reg.s.unwrap_or(1)),
+            );
+        }
+        return (
+            "lost-in-chunk-merge".into(),
+            format!("the record's chunk {vs}..{ve} is in returned bin {holder}, ends beyond min_offset {mo}, but the merged chunk list {:?} does not cover it", chunks.iter().map(|c| (u64::from(c.start()), u64::from(c.end()))).collect::<Vec<_>>()),
+        );
+    }
+    match guard::catch(|| b.raw(chunks.clone())) {
+        Ok(Ok(names)) => {
+            if names.iter().any(|n| n == &scan.names[m]) {
+                ("rejected-by-intersects-filter".into(), "the record is read from the returned chunks but the format-level region filter drops it".into())
+            } else {
+                (
+                    "skipped-by-reader-inside-returned-chunk".into(),
+                    format!("the record's chunk {vs}..{ve} lies inside the returned chunks {:?} but reading them yields only {} records without it", chunks.iter().map(|c| (u64::from(c.start()), u64::from(c.end()))).collect::<Vec<_>>(), names.len()),
+                )
+            }
+        }
+        Ok(Err(e)) => ("chunk-read-failed".into(), e.to_string()),
+        Err(p) => ("chunk-read-panicked".into(), p.message),
+    }
+}
+
+#[allow(clippy::too_many_arguments)]
+fn check_index<B: Backend, I>(b: &B, items: &[Item], scan: &Scan, ix: &Index<I>, lab: &Labels, regions: &[Reg], o: &mut CaseOut, st: &mut Stats, fps: &mut Vec<u64>)
+where
+    I: reference_sequence::Index + OffKind,
+{
+    let by_name: HashMap<&str, usize> = items.iter().enumerate().map(|(i, it)| (it.name.as_str(), i)).collect();
+    let (ms, d) = lab.geometry;
+    let maxpos = (1usize << (ms as usize + 3 * d as usize)) - 1;
+    let mut sig_seen: HashMap<String, u32> = HashMap::new();
+    let mut report = |o: &mut CaseOut, sig: String, desc: String| {
+        let n = sig_seen.entry(sig.clone()).or_insert(0);
+        *n += 1;
+        if *n <= 2 {
+            o.violation(sig, desc);
+        } else {
+            o.count("further_violations_same_signature_same_file", 1);
+        }
+    };
+    for reg in regions {
+        if reg.s.unwrap_or(1) > maxpos || reg.e.unwrap_or(1) > maxpos {
+            continue; // outside what this geometry can be asked
+        }
+        let name = &lab.ref_names[reg.rid];
+        // oracle
+        let mut must: Vec<usize> = vec![];
+        let mut optional: HashSet<usize> = HashSet::new();
+        for (i, it) in items.iter().enumerate() {
+            if it.rid != Some(reg.rid) {
+                continue;
+            }
+            let Some((s, e1, e2)) = it.span else { continue };
+            if reg.hits(s, e1) {
+                must.push(i);
+            } else if reg.hits(s, e2) {
+                optional.insert(i);
+            }
+        }
+        st.regions += 1;
+        st.ambiguous += optional.len() as u64;
+        let iv = reg.interval();
+        let what = format!("{}+{} ({}, geometry {:?}) region {name}:{iv} [{}]", B::FMT, lab.ix, lab.via, lab.geometry, reg.class);
+        let got = match guard::catch(|| b.query(ix, name, iv)) {
+            Err(p) => {
+                report(o, format!("query:{}+{}:panic:{}", B::FMT, lab.ix, p.sig), format!("{what}: query panicked: {}", p.message));
+                continue;
+            }
+            Ok(Err(e)) => {
+                if must.is_empty() {
+                    st.refused_empty += 1;
+                    o.count(&format!("queries_refused_where_the_scan_keeps_nothing[{}+{}:{}]", B::FMT, lab.ix, guard::normalise_message(&e.to_string().chars().take(60).collect::<String>())), 1);
+                } else {
+                    report(o, format!("query:{}+{}:failed-on-region-with-records", B::FMT, lab.ix), format!("{what}: the scan keeps {} records but the query fails: {e}", must.len()));
+                }
+                continue;
+            }
+            Ok(Ok(v)) => v,
+        };
+        st.max_answer = st.max_answer.max(got.len() as u64);
+        if !got.is_empty() {
+            st.nonempty += 1;
+        }
+        let irid = (lab.index_rid)(reg.rid);
+        let pruning = irid.map(|r| u64::from(ix.reference_sequences()[r].min_offset(ms, d, Position::new(reg.s.unwrap_or(1)).unwrap())) > 0).unwrap_or(false);
+        if pruning {
+            st.pruning += 1;
+        }
+        fps.push(fnv1a(format!("{}|{}|{}|{}|{}|{}|{pruning}", B::FMT, lab.ix, lab.via, lab.geometry.0 == 14 && lab.geometry.1 == 5, reg.class, must.len().min(3)).as_bytes()));
+        // compare
+        let mut got_idx: Vec<usize> = Vec::with_capacity(got.len());
+        let mut bad = false;
+        for g in &got {
+            match by_name.get(g.as_str()) {
+                Some(&i) => got_idx.push(i),
+                None => {
+                    report(o, format!("query:{}+{}:extra:unknown-record", B::FMT, lab.ix), format!("{what}: yields a record named {g:?} that was never written"));
+                    bad = true;
+                }
+            }
+        }
+        if bad {
+            continue;
+        }
+        // duplicates / order
+        if let Some(w) = got_idx.windows(2).find(|w| w[0] >= w[1]) {
+            let class = if w[0] == w[1] || got_idx.iter().filter(|&&x| x == w[1]).count() > 1 { "duplicate" } else { "order" };
+            report(
+                o,
+                format!("query:{}+{}:{class}", B::FMT, lab.ix),
+                format!("{what}: records {} (file #{}) and {} (file #{}) come out in this order; result {:?}", items[w[0]].name, w[0], items[w[1]].name, w[1], got.iter().take(12).collect::<Vec<_>>()),
+            );
+            continue;
+        }
+        let gset: HashSet<usize> = got_idx.iter().copied().collect();
+        if gset.len() != got_idx.len() {
+            report(o, format!("query:{}+{}:duplicate", B::FMT, lab.ix), format!("{what}: a record is yielded twice: {:?}", got.iter().take(12).collect::<Vec<_>>()));
+            continue;
+        }
+        // extras
+        if let Some(&x) = got_idx.iter().find(|i| !must.contains(i) && !optional.contains(i)) {
+            let it = &items[x];
+            let class = if it.rid != Some(reg.rid) { "other-reference" } else { "outside-region" };
+            report(
+                o,
+                format!("query:{}+{}:extra:{class}", B::FMT, lab.ix),
+                format!("{what}: yields {} (reference {:?}, span {:?}), which the scan filter does not keep", it.name, it.rid, it.span),
+            );
+            continue;
+        }
+        // omissions
+        if let Some(&m) = must.iter().find(|i| !gset.contains(i)) {
+            let it = &items[m];
+            let (stage, detail) = match irid {
+                Some(r) if m < scan.chunks.len() => diagnose(b, scan, ix, r, reg, lab, m),
+                _ => ("reference-not-in-index".to_string(), String::new()),
+            };
+            let nmiss = must.iter().filter(|i| !gset.contains(i)).count();
+            report(
+                o,
+                format!("query:{}+{}:missing:{stage}", B::FMT, lab.ix),
+                format!(
+                    "{what}: the scan keeps {} records, the query yields {}; {nmiss} missing, first {} (file #{m}, span {:?}, unmapped={}): {detail}",
+                    must.len(),
+                    got.len(),
+                    it.name,
+                    it.span.map(|s| (s.0, s.1)),
+                    it.unmapped
+                ),
+            );
+        }
+    }
+}
+
+fn check_unmapped<B: Backend, X: BinningIndex>(b: &B, items: &[Item], ix: &X, ixname: &str, via: &str, o: &mut CaseOut) -> bool {
+    let Some(res) = guard::catch(|| b.unmapped(ix)).map_err(|p| (p.sig, p.message)).transpose() else { return false };
+    let what = format!("{}+{ixname} ({via}) query_unmapped", B::FMT);
+    let got = match res {
+        Err((sig, msg)) => {
+            o.violation(format!("query-unmapped:{ixname}:panic:{sig}"), format!("{what} panicked: {msg}"));
+            return true;
+        }
+        Ok(Err(e)) => {
+            o.violation(format!("query-unmapped:{ixname}:failed"), format!("{what} failed: {e}"));
+            return true;
+        }
+        Ok(Ok(v)) => v,
+    };
+    let by_name: HashMap<&str, usize> = items.iter().enumerate().map(|(i, it)| (it.name.as_str(), i)).collect();
+    let want: Vec<usize> = items.iter().enumerate().filter(|(_, it)| it.unmapped && it.rid.is_none()).map(|(i, _)| i).collect();
+    let mut got_idx = vec![];
+    for g in &got {
+        match by_name.get(g.as_str()) {
+            Some(&i) => got_idx.push(i),
+            None => {
+                o.violation(format!("query-unmapped:{ixname}:unknown-record"), format!("{what} yields {g:?}, never written"));
+                return true;
+            }
+        }
+    }
+    if let Some(&x) = got_idx.iter().find(|&&i| !items[i].unmapped) {
+        o.violation(format!("query-unmapped:{ixname}:yields-record-not-flagged-unmapped"), format!("{what} yields {} (file #{x}), whose flags do not have 0x4", items[x].name));
+        return true;
+    }
+    if got_idx.windows(2).any(|w| w[0] >= w[1]) {
+        o.violation(format!("query-unmapped:{ixname}:order-or-duplicate"), format!("{what} result is not in file order without repetition: {:?}", got.iter().take(12).collect::<Vec<_>>()));
+        return true;
+    }
+    let gset: HashSet<usize> = got_idx.iter().copied().collect();
+    if let Some(&m) = want.iter().find(|i| !gset.contains(i)) {
+        o.violation(
+            format!("query-unmapped:{ixname}:missing-unplaced-unmapped-record"),
+            format!("{what}: {} unplaced unmapped records were written, {} of them are yielded; first missing {} (file #{m})", want.len(), want.iter().filter(|i| gset.contains(i)).count(), items[m].name),
+        );
+        return true;
+    }
+    o.count("query_unmapped_placed_unmapped_records_also_yielded", (got_idx.len() - want.len()) as u64);
+    o.count("query_unmapped_unplaced_records_expected", want.len() as u64);
+    true
+}
+
+// ---------------------------------------------------------------------------------------------------
+// cases
+
+#[derive(Clone, Debug)]
+enum Case {
+    Aln { seed: u64, size: usize, coord_max: usize, corpus: Option<&'static str> },
+    Var { seed: u64, size: usize, coord_max: usize, corpus: Option<&'static str> },
+}
+
+fn case_json(c: &Case) -> Value {
+    match c {
+        Case::Aln { seed, size, coord_max, corpus } => json!({"kind": "alignments", "seed": seed, "size": size, "coord_max": coord_max, "corpus": corpus}),
+        Case::Var { seed, size, coord_max, corpus } => json!({"kind": "variants", "seed": seed, "size": size, "coord_max": coord_max, "corpus": corpus}),
+    }
+}
+
+const CORPUS: [&str; 4] = ["long-in-parent-bin", "long-in-grandparent-bin", "short-in-later-bin", "boundary-records"];
+
+fn gen_cases(ctx: &Ctx) -> Vec<Case> {
+    let mut v = Vec::new();
+    for c in CORPUS {
+        v.push(Case::Aln { seed: 0, size: 0, coord_max: (1 << 29) - 1, corpus: Some(c) });
+        v.push(Case::Var { seed: 0, size: 0, coord_max: (1 << 29) - 1, corpus: Some(c) });
+    }
+    let n = ctx.budget("sets", 150, 1500);
+    let mut rng = Rng::new(ctx.seed, 0xC04, 0);
+    for i in 0..n {
+        for kind in 0..2 {
+            let size = if ctx.quick() { *rng.pick(&[20usize, 60, 120, 300]) } else { *rng.pick(&[20usize, 60, 150, 500, 2000]) };
+            let coord_max = match rng.below(6) {
+                0 => (1 << 16) - 1,
+                1 => (1 << 22) - 1,
+                2 => (1 << 26) + 12345,
+                _ => (1 << 29) - 1,
+            };
+            let seed = ctx.seed.wrapping_mul(1_000_003).wrapping_add(i * 2 + kind);
+            v.push(if kind == 0 { Case::Aln { seed, size, coord_max, corpus: None } } else { Case::Var { seed, size, coord_max, corpus: None } });
+        }
+    }
+    v
+}
+
+/// Non-default CSI geometries whose coordinate range covers `coord_max`.
+fn other_geometry(rng: &mut Rng, coord_max: usize) -> (u8, u8) {
+    let all: [(u8, u8); 10] = [(12, 6), (16, 4), (14, 6), (15, 5), (10, 6), (17, 4), (8, 7), (13, 5), (6, 4), (9, 3)];
+    let ok: Vec<(u8, u8)> = all.iter().copied().filter(|&(ms, d)| (1usize << (ms as usize + 3 * d as usize)) - 1 >= coord_max).collect();
+    *rng.pick(&ok)
+}
+
+fn corpus_aln(name: &str) -> AlnSet {
+    let mk = |k: usize, pos: usize, ops: Vec<(char, usize)>| AlnRec { name: format!("q{k}"), flags: 0, rid: Some(0), pos, ops, pad: 0, with_seq: false };
+    let recs = match name {
+        // long record in the 128 kb bin 585 that is the direct parent of the leaf bin of the short ones
+        "long-in-parent-bin" => vec![mk(0, 11, vec![('M', 20_000)]), mk(1, 20, vec![('M', 100)]), mk(2, 300, vec![('M', 100)]), mk(3, 17_000, vec![('M', 50)])],
+        // long record in the 1 Mb bin 73; the 128 kb parent of the leaf bin does not exist
+        "long-in-grandparent-bin" => vec![mk(0, 11, vec![('M', 50), ('N', 199_900), ('M', 50)]), mk(1, 20, vec![('M', 100)]), mk(2, 300, vec![('M', 100)])],
+        // short record in leaf bin 4682, then a record in bin 585 that starts later; the query starts in the (empty) leaf 4681
+        "short-in-later-bin" => vec![mk(0, 20_000, vec![('M', 51)]), mk(1, 30_000, vec![('M', 20_000)]), mk(2, 60_000, vec![('M', 10)])],
+        _ => vec![
+            mk(0, 1, vec![('M', 1)]),
+            mk(1, 16_384, vec![('M', 1)]),
+            mk(2, 16_384, vec![('M', 2)]),
+            mk(3, 16_385, vec![('M', 1)]),
+            mk(4, 131_072, vec![('M', 1)]),
+            mk(5, 131_073, vec![('M', 1)]),
+            mk(6, (1 << 29) - 1, vec![('M', 1)]),
+        ],
+    };
+    let n = recs.len();
+    AlnSet { refs: vec![("sq0".into(), (1 << 29) - 1), ("sq1".into(), 1000)], recs, flush_after: vec![false; n], level: 1 }
+}
+
+fn corpus_var(name: &str) -> VarSet {
+    let mk = |k: usize, pos: usize, ref_len: usize, end: Option<usize>| VarRec { chrom: 0, pos, id: format!("v{k}"), ref_len, alt: if end.is_some() { "<DEL>".into() } else { "T".into() }, end, svlen: None, pad: 0 };
+    let recs = match name {
+        "long-in-parent-bin" => vec![mk(0, 11, 1, Some(20_010)), mk(1, 20, 1, None), mk(2, 300, 3, None), mk(3, 17_000, 1, None)],
+        "long-in-grandparent-bin" => vec![mk(0, 11, 1, Some(200_010)), mk(1, 20, 1, None), mk(2, 300, 3, None)],
+        "short-in-later-bin" => vec![mk(0, 20_000, 5, None), mk(1, 30_000, 1, Some(49_999)), mk(2, 60_000, 1, None)],
+        _ => vec![mk(0, 1, 1, None), mk(1, 16_384, 1, None), mk(2, 16_384, 2, None), mk(3, 16_385, 1, None), mk(4, 131_072, 1, None), mk(5, 131_073, 1, None), mk(6, (1 << 29) - 1, 1, None)],
+    };
+    let n = recs.len();
+    VarSet { minor: 3, contigs: vec!["chr0".into(), "chr1".into()], recs, flush_after: vec![false; n], level: 1 }
+}
+
+fn corpus_regions(name: &str) -> Vec<Reg> {
+    let r = |s: usize, e: usize| Reg { rid: 0, s: Some(s), e: Some(e), class: "corpus" };
+    match name {
+        "long-in-parent-bin" | "long-in-grandparent-bin" => vec![r(20, 119), r(300, 300), r(10, 10), r(11, 11), r(1, 1 << 20)],
+        "short-in-later-bin" => vec![r(100, 25_000), r(20_000, 20_000), r(1, 70_000)],
+        _ => vec![r(1, 1), r(16_384, 16_384), r(16_385, 16_385), r(16_383, 16_383), r(131_072, 131_073), r((1 << 29) - 1, (1 << 29) - 1), Reg { rid: 0, s: None, e: None, class: "corpus" }, Reg { rid: 1, s: None, e: None, class: "corpus" }],
+    }
+}
+
+fn finish_stats(o: &mut CaseOut, fmt: &str, st: &Stats) {
+    o.count(&format!("regions_queried[{fmt}]"), st.regions);
+    o.count(&format!("nonempty_answers[{fmt}]"), st.nonempty);
+    o.count(&format!("answers_with_min_offset_above_zero[{fmt}]"), st.pruning);
+    o.count("vcf45_svlen_boundary_pairs_not_judged", st.ambiguous);
+    o.max("max_answer_records", st.max_answer);
+}
+
+fn count_level_crossings(o: &mut CaseOut, items: &[Item]) {
+    for it in items {
+        if let Some((s, e, _)) = it.span {
+            for (j, span) in layouts::LEVEL_SPANS.iter().enumerate() {
+                if (s - 1) / span != (e - 1) / span {
+                    o.count(&format!("records_straddling_bin_edge[{}]", ["16kb", "128kb", "1Mb", "8Mb", "64Mb"][j]), 1);
+                }
+            }
+        }
+    }
+}
+
+fn blocks_of(data: &[u8]) -> (u64, u64) {
+    match vcore::bgzf::walk(data) {
+        Ok(w) => (w.members.len() as u64, w.members.iter().map(|m| m.data.len() as u64).max().unwrap_or(0)),
+        Err(_) => (0, 0),
+    }
+}
+
+fn run_aln(ctx: &Ctx, idx: u64, seed: u64, size: usize, coord_max: usize, corpus: Option<&str>) -> CaseOut {
+    let mut o = CaseOut::new();
+    let mut rng = Rng::new(seed, 0xA1, 0);
+    let (set, shape) = match corpus {
+        Some(c) => (corpus_aln(c), format!("corpus:{c}")),
+        None => layouts::gen_aln(&mut rng, coord_max, size),
+    };
+    let items: Vec<Item> = set.recs.iter().map(|r| Item { name: r.name.clone(), rid: if r.is_unplaced() { None } else { r.rid }, span: r.span().map(|(s, e)| (s, e, e)), unmapped: r.is_unmapped() }).collect();
+    let path = ctx.work.join(format!("c04-{idx}.bam"));
+    let w = guard::catch(|| genfiles::write_bam(&path, &set));
+    match w {
+        Ok(Ok(_)) => {}
+        Ok(Err(e)) => {
+            o.count(&format!("writer_rejections[bam:{}]", guard::normalise_message(&e.to_string())), 1);
+            o.evaluations = 0;
+            return o;
+        }
+        Err(p) => {
+            o.inconclusive.push(format!("BAM writer panicked (C05's business): {}", p.sig));
+            return o;
+        }
+    }
+    let (b, scan) = match guard::catch(|| BamB::open(&path)) {
+        Ok(Ok(x)) => x,
+        Ok(Err(e)) => {
+            o.inconclusive.push(format!("sequential scan of the written BAM failed: {e}"));
+            return o;
+        }
+        Err(p) => {
+            o.inconclusive.push(format!("sequential scan of the written BAM panicked: {}", p.sig));
+            return o;
+        }
+    };
+    if scan.names != items.iter().map(|i| i.name.clone()).collect::<Vec<_>>() {
+        o.inconclusive.push("sequential scan of the written BAM does not give back the written names in order (C05)".into());
+        return o;
+    }
+    let (nblocks, maxblock) = blocks_of(&b.data);
+    o.count("bgzf_blocks[bam]", nblocks);
+    o.max("max_block_payload", maxblock);
+    o.count("files[bam]", 1);
+    o.count("records[bam]", items.len() as u64);
+    // records sharing a block with another record / records whose chunk starts mid-block
+    o.count("records_starting_mid_block[bam]", scan.chunks.iter().filter(|c| c.0 & 0xffff != 0).count() as u64);
+    o.count("records_spanning_blocks[bam]", scan.chunks.iter().filter(|c| (c.0 >> 16) != (c.1 >> 16) && c.1 & 0xffff != 0).count() as u64);
+    count_level_crossings(&mut o, &items);
+    let ref_names: Vec<String> = set.refs.iter().map(|r| r.0.clone()).collect();
+    let regions = match corpus {
+        Some(c) => corpus_regions(c),
+        None => gen_regions(&mut rng, &items, set.refs.len(), coord_max, 100),
+    };
+    let ident = |r: usize| Some(r);
+    let mut st = Stats::default();
+    let mut fps = vec![fnv1a(format!("bam|{shape}").as_bytes())];
+
+    // BAI from bam::fs::index
+    match guard::catch(|| bam::fs::index(&path)) {
+        Ok(Ok(bai)) => {
+            let lab = Labels { ix: "bai", via: "memory", geometry: (14, 5), ref_names: &ref_names, index_rid: &ident };
+            check_index(&b, &items, &scan, &bai, &lab, &regions, &mut o, &mut st, &mut fps);
+            check_unmapped(&b, &items, &bai, "bai", "memory", &mut o);
+            let ip = ctx.work.join(format!("c04-{idx}.bam.bai"));
+            match guard::catch(|| bam::bai::fs::write(&ip, &bai).and_then(|_| bam::bai::fs::read(&ip))) {
+                Ok(Ok(bai2)) => {
+                    let lab = Labels { via: "file", ..lab };
+                    check_index(&b, &items, &scan, &bai2, &lab, &regions, &mut o, &mut st, &mut fps);
+                    check_unmapped(&b, &items, &bai2, "bai", "file", &mut o);
+                    o.count("index_file_round_trips[bai]", 1);
+                }
+                Ok(Err(e)) => o.violation("index-file:bai:write-read-failed", format!("bai::fs::write + read failed: {e}")),
+                Err(p) => o.violation(format!("index-file:bai:panic:{}", p.sig), p.message),
+            }
+        }
+        Ok(Err(e)) => o.count(&format!("indexing_refused[bam::fs::index:{}]", guard::normalise_message(&e.to_string())), 1),
+        Err(p) => o.violation(format!("indexing:bam::fs::index-panic:{}", p.sig), p.message),
+    }
+    // CSI: default geometry and one other
+    let other = other_geometry(&mut rng, coord_max);
+    for (k, (ms, d)) in [(14u8, 5u8), other].into_iter().enumerate() {
+        match guard::catch(|| b.csi(ms, d)) {
+            Ok(Ok(cx)) => {
+                let lab = Labels { ix: "csi", via: "memory", geometry: (ms, d), ref_names: &ref_names, index_rid: &ident };
+                check_index(&b, &items, &scan, &cx, &lab, &regions, &mut o, &mut st, &mut fps);
+                check_unmapped(&b, &items, &cx, "csi", "memory", &mut o);
+                let ip = ctx.work.join(format!("c04-{idx}.{k}.bam.csi"));
+                match guard::catch(|| csi::fs::write(&ip, &cx).and_then(|_| csi::fs::read(&ip))) {
+                    Ok(Ok(cx2)) => {
+                        let lab = Labels { via: "file", ..lab };
+                        check_index(&b, &items, &scan, &cx2, &lab, &regions, &mut o, &mut st, &mut fps);
+                        check_unmapped(&b, &items, &cx2, "csi", "file", &mut o);
+                        o.count("index_file_round_trips[csi]", 1);
+                    }
+                    Ok(Err(e)) => o.violation("index-file:csi:write-read-failed", format!("csi::fs::write + read failed: {e}")),
+                    Err(p) => o.violation(format!("index-file:csi:panic:{}", p.sig), p.message),
+                }
+                if k == 1 {
+                    o.count(&format!("csi_non_default_geometry[{ms},{d}]"), 1);
+                }
+            }
+            Ok(Err(e)) => o.count(&format!("indexing_refused[bam+csi-indexer:{}]", guard::normalise_message(&e.to_string())), 1),
+            Err(p) => o.violation(format!("indexing:csi-indexer-panic:{}", p.sig), p.message),
+        }
+    }
+    finish_stats(&mut o, "bam", &st);
+    fps.sort_unstable();
+    fps.dedup();
+    o.fps = fps;
+    o.evaluations = st.regions.max(1);
+    o
+}
+
+fn run_var(ctx: &Ctx, idx: u64, seed: u64, size: usize, coord_max: usize, corpus: Option<&str>) -> CaseOut {
+    let mut o = CaseOut::new();
+    let mut rng = Rng::new(seed, 0xB2, 0);
+    let (set, shape) = match corpus {
+        Some(c) => (corpus_var(c), format!("corpus:{c}")),
+        None => layouts::gen_var(&mut rng, coord_max, size),
+    };
+    let items: Vec<Item> = set.recs.iter().map(|r| Item { name: r.id.clone(), rid: Some(r.chrom), span: Some(set.span(r)), unmapped: false }).collect();
+    let names: Vec<String> = items.iter().map(|i| i.name.clone()).collect();
+    let regions = match corpus {
+        Some(c) => corpus_regions(c),
+        None => gen_regions(&mut rng, &items, set.contigs.len(), coord_max, 100),
+    };
+    count_level_crossings(&mut o, &items);
+    let mut fps = vec![fnv1a(format!("var|{shape}").as_bytes())];
+    let mut total_regions = 0;
+    let ident = |r: usize| Some(r);
+
+    // ---- BCF + CSI
+    let path = ctx.work.join(format!("c04-{idx}.bcf"));
+    match guard::catch(|| genfiles::write_bcf(&path, &set)) {
+        Ok(Ok(_)) => match guard::catch(|| BcfB::open(&path)) {
+            Ok(Ok((b, scan))) if scan.names == names => {
+                let (nblocks, _) = blocks_of(&b.data);
+                o.count("bgzf_blocks[bcf]", nblocks);
+                o.count("files[bcf]", 1);
+                o.count("records[bcf]", items.len() as u64);
+                o.count("records_starting_mid_block[bcf]", scan.chunks.iter().filter(|c| c.0 & 0xffff != 0).count() as u64);
+                o.count("records_spanning_blocks[bcf]", scan.chunks.iter().filter(|c| (c.0 >> 16) != (c.1 >> 16) && c.1 & 0xffff != 0).count() as u64);
+                let mut st = Stats::default();
+                let other = other_geometry(&mut rng, coord_max);
+                for k in 0..2 {
+                    let (ms, d) = if k == 0 { (14u8, 5u8) } else { other };
+                    let built = if k == 0 { guard::catch(|| bcf::fs::index(&path)) } else { guard::catch(|| b.csi(ms, d)) };
+                    match built {
+                        Ok(Ok(cx)) => {
+                            let lab = Labels { ix: "csi", via: "memory", geometry: (ms, d), ref_names: &set.contigs, index_rid: &ident };
+                            check_index(&b, &items, &scan, &cx, &lab, &regions, &mut o, &mut st, &mut fps);
+                            let ip = ctx.work.join(format!("c04-{idx}.{k}.bcf.csi"));
+                            match guard::catch(|| csi::fs::write(&ip, &cx).and_then(|_| csi::fs::read(&ip))) {
+                                Ok(Ok(cx2)) => {
+                                    let lab = Labels { via: "file", ..lab };
+                                    check_index(&b, &items, &scan, &cx2, &lab, &regions, &mut o, &mut st, &mut fps);
+                                    o.count("index_file_round_trips[csi]", 1);
+                                }
+                                Ok(Err(e)) => o.violation("index-file:csi:write-read-failed", format!("csi::fs::write + read failed: {e}")),
+                                Err(p) => o.violation(format!("index-file:csi:panic:{}", p.sig), p.message),
+                            }
+                            if k == 1 {
+                                o.count(&format!("csi_non_default_geometry[{ms},{d}]"), 1);
+                            }
+                        }
+                        Ok(Err(e)) => o.count(&format!("indexing_refused[{}:{}]", if k == 0 { "bcf::fs::index" } else { "bcf+csi-indexer" }, guard::normalise_message(&e.to_string())), 1),
+                        Err(p) => o.violation(format!("indexing:bcf-csi-panic:{}", p.sig), p.message),
+                    }
+                }
+                finish_stats(&mut o, "bcf", &st);
+                total_regions += st.regions;
+            }
+            Ok(Ok(_)) => o.inconclusive.push("sequential scan of the written BCF does not give back the written IDs in order (C10)".into()),
+            Ok(Err(e)) => o.inconclusive.push(format!("sequential scan of the written BCF failed: {e}")),
+            Err(p) => o.inconclusive.push(format!("sequential scan of the written BCF panicked: {}", p.sig)),
+        },
+        Ok(Err(e)) => o.count(&format!("writer_rejections[bcf:{}]", guard::normalise_message(&e.to_string())), 1),
+        Err(p) => o.inconclusive.push(format!("BCF writer panicked (C10's business): {}", p.sig)),
+    }
+
+    // ---- VCF.gz + tabix
+    let path = ctx.work.join(format!("c04-{idx}.vcf.gz"));
+    match guard::catch(|| genfiles::write_vcf_gz(&path, &set)) {
+        Ok(Ok(_)) => match guard::catch(|| VcfB::open(&path)) {
+            Ok(Ok((b, scan))) if scan.names == names => {
+                let (nblocks, _) = blocks_of(&b.data);
+                o.count("bgzf_blocks[vcf.gz]", nblocks);
+                o.count("files[vcf.gz]", 1);
+                o.count("records[vcf.gz]", items.len() as u64);
+                o.count("records_starting_mid_block[vcf.gz]", scan.chunks.iter().filter(|c| c.0 & 0xffff != 0).count() as u64);
+                o.count("records_spanning_blocks[vcf.gz]", scan.chunks.iter().filter(|c| (c.0 >> 16) != (c.1 >> 16) && c.1 & 0xffff != 0).count() as u64);
+                let mut st = Stats::default();
+                match guard::catch(|| vcf::fs::index(&path)) {
+                    Ok(Ok(tbx)) => {
+                        let tnames: Vec<String> = tbx.header().map(|h| h.reference_sequence_names().iter().map(|n| n.to_string()).collect()).unwrap_or_default();
+                        let contigs = set.contigs.clone();
+                        let map = move |r: usize| tnames.iter().position(|n| n == &contigs[r]);
+                        let lab = Labels { ix: "tabix", via: "memory", geometry: (14, 5), ref_names: &set.contigs, index_rid: &map };
+                        check_index(&b, &items, &scan, &tbx, &lab, &regions, &mut o, &mut st, &mut fps);
+                        let ip = ctx.work.join(format!("c04-{idx}.vcf.gz.tbi"));
+                        match guard::catch(|| tabix::fs::write(&ip, &tbx).and_then(|_| tabix::fs::read(&ip))) {
+                            Ok(Ok(t2)) => {
+                                let lab = Labels { via: "file", ..lab };
+                                check_index(&b, &items, &scan, &t2, &lab, &regions, &mut o, &mut st, &mut fps);
+                                o.count("index_file_round_trips[tabix]", 1);
+                            }
+                            Ok(Err(e)) => o.violation("index-file:tabix:write-read-failed", format!("tabix::fs::write + read failed: {e}")),
+                            Err(p) => o.violation(format!("index-file:tabix:panic:{}", p.sig), p.message),
+                        }
+                    }
+                    Ok(Err(e)) => o.count(&format!("indexing_refused[vcf::fs::index:{}]", guard::normalise_message(&e.to_string())), 1),
+                    Err(p) => o.violation(format!("indexing:vcf::fs::index-panic:{}", p.sig), p.message),
+                }
+                finish_stats(&mut o, "vcf.gz", &st);
+                total_regions += st.regions;
+            }
+            Ok(Ok(_)) => o.inconclusive.push("sequential scan of the written VCF.gz does not give back the written IDs in order (C09)".into()),
+            Ok(Err(e)) => o.inconclusive.push(format!("sequential scan of the written VCF.gz failed: {e}")),
+            Err(p) => o.inconclusive.push(format!("sequential scan of the written VCF.gz panicked: {}", p.sig)),
+        },
+        Ok(Err(e)) => o.count(&format!("writer_rejections[vcf.gz:{}]", guard::normalise_message(&e.to_string())), 1),
+        Err(p) => o.inconclusive.push(format!("VCF writer panicked (C09's business): {}", p.sig)),
+    }
+    fps.sort_unstable();
+    fps.dedup();
+    o.fps = fps;
+    o.evaluations = total_regions.max(1);
+    o
+}
 
 fn main() {
-    eprintln!("c04: not implemented");
-    std::process::exit(2);
+    let ctx = Ctx::from_args();
+    let ctx = vcore::cases::replay_request(&ctx).map(|r| r.1).unwrap_or(ctx);
+    let mut rep = Report::new(
+        "case = one generated coordinate-sorted record set (layout motifs: bin-edge straddlers at 16kb/128kb/1Mb/8Mb/64Mb, long-before-short \
+         in one 16 kb window, dense, sparse, range ends, placed/unplaced unmapped, several references incl. empty ones; flush plan and fat \
+         records decide BGZF block boundaries) written as BAM resp. BCF + VCF.gz; per file every index variant (BAI | CSI default | CSI \
+         non-default geometry | tabix) x (in memory | after fs::write+fs::read) answers ~100 regions (own span, +-1, points, bin-aligned \
+         windows, whole reference, unbounded start/end, nothing, empty reference); evaluations = region queries compared with the scan \
+         filter over the generator's description; distinct = distinct (format, index, memory/file, default geometry?, region class, \
+         answer size class 0/1/2/3+, min_offset>0) plus distinct set shapes; a fixed corpus (4 layouts x 2 formats) precedes the seeded part",
+    );
+    rep.assumptions.push("oracle = generator description: SAM span = POS..POS+max(sum M/D/N/=/X,1)-1; VCF<4.5 span = POS..END if INFO/END else POS+len(REF)-1; VCF 4.5 SVLEN: both POS+SVLEN-1 and POS+SVLEN accepted as end (pairs separated by that base are not judged)".into());
+    rep.assumptions.push("a sequential read of each written file with the noodles reader must give back the written names in order, else the case is inconclusive (C05/C09/C10 territory)".into());
+    rep.assumptions.push("query_unmapped may additionally yield placed unmapped reads (flagged 0x4): the statement only forbids records not flagged unmapped".into());
+    rep.assumptions.push("a query that returns Err for a region on which the scan keeps nothing (e.g. tabix: contig without records is not in the index) is counted, not alarmed on".into());
+    let cases = gen_cases(&ctx);
+    let f = |i: u64| -> CaseOut {
+        let mut o = match &cases[i as usize] {
+            Case::Aln { seed, size, coord_max, corpus } => run_aln(&ctx, i, *seed, *size, *coord_max, *corpus),
+            Case::Var { seed, size, coord_max, corpus } => run_var(&ctx, i, *seed, *size, *coord_max, *corpus),
+        };
+        if i % 23 == 0 {
+            o.sample = Some(case_json(&cases[i as usize]));
+        }
+        o
+    };
+    run_cases(&ctx, &mut rep, cases.len() as u64, 120.0, &f, &|i| case_json(&cases[i as usize]));
+    if ctx.replay.is_none() {
+        for fmt in ["bam", "bcf", "vcf.gz"] {
+            let files = rep.counters.get(&format!("files[{fmt}]")).copied().unwrap_or(0);
+            rep.floor(&format!("files[{fmt}]"), files, 20);
+            let ne = rep.counters.get(&format!("nonempty_answers[{fmt}]")).copied().unwrap_or(0);
+            rep.floor(&format!("nonempty_answers[{fmt}]"), ne, 1000);
+            let pr = rep.counters.get(&format!("answers_with_min_offset_above_zero[{fmt}]")).copied().unwrap_or(0);
+            rep.floor(&format!("answers_with_min_offset_above_zero[{fmt}]"), pr, 200);
+        }
+        for ix in ["bai", "csi", "tabix"] {
+            let n = rep.counters.get(&format!("index_file_round_trips[{ix}]")).copied().unwrap_or(0);
+            rep.floor(&format!("index_file_round_trips[{ix}]"), n, 20);
+        }
+    }
+    rep.finish(&ctx);
 }
